@@ -54,6 +54,7 @@ const (
 	KCmdGetline = "cmd|getline"  // CMD | getline          (sets $0)
 	KCmdGetlnV  = "cmd|getlinev" // CMD | getline v
 	KSystem     = "system"       // system(CMD)
+	KSystemNone = "system-empty" // system(E) where E evaluates to the empty string: still starts the shell
 	KGetline    = "getline"      // plain getline: next record of the operands / stdin (sets $0)
 	KGetlineV   = "getlinev"     // plain getline v
 	KClose      = "close"        // close(NAME) or close(CMD of op Ref)
@@ -67,7 +68,7 @@ const (
 
 // Forms lists the op kinds that are I/O forms in their own right (used by the systematic family).
 var Forms = []string{KPrintGt, KPrintApp, KPrintfGt, KPrintfApp, KGetlineF, KGetlineVF, KPrintPipe, KPrintfPipe,
-	KCmdGetline, KCmdGetlnV, KSystem, KGetline, KGetlineV, KDevStdout, KDevStderr, KDevNull, KStdinDash, KSetArgv}
+	KCmdGetline, KCmdGetlnV, KSystem, KSystemNone, KGetline, KGetlineV, KDevStdout, KDevStderr, KDevNull, KStdinDash, KSetArgv}
 
 // Class returns which permission an operation kind needs: "W" file write, "R" file read,
 // "X" process start, "M" main input (R only if it has to open a file operand), "" none.
@@ -79,7 +80,7 @@ func Class(kind string) string {
 		return "N"
 	case KGetlineF, KGetlineVF:
 		return "R"
-	case KPrintPipe, KPrintfPipe, KCmdGetline, KCmdGetlnV, KSystem:
+	case KPrintPipe, KPrintfPipe, KCmdGetline, KCmdGetlnV, KSystem, KSystemNone:
 		return "X"
 	case KGetline, KGetlineV:
 		return "M"
@@ -245,6 +246,9 @@ func opSource(c *Case, op Op) string {
 		s = "r" + n + " = (" + e + " | getline v" + n + `); print "r` + n + `", r` + n + ", v" + n
 	case KSystem:
 		pre, e = cmdExpr(op, op.Sp)
+		s = "r" + n + " = system(" + e + `); print "s` + n + `", r` + n
+	case KSystemNone:
+		e = []string{`""`, "unset" + n, `substr("x", 2)`}[op.Sp%3]
 		s = "r" + n + " = system(" + e + `); print "s` + n + `", r` + n
 	case KGetline:
 		s = "r" + n + ` = getline; print "g` + n + `", r` + n + ", $0"
